@@ -413,16 +413,21 @@ class CtlScheduler:
         return value
 
 
-def worker_loop(world, sched, on_error=None):
+def worker_loop(world, sched, on_error=None, max_actions=None):
     """body of a worker thread of `sched`: start pending actions one at a time, at the moments the
-    schedule picks this thread; blocked while nothing is pending; leaves when every other (non-worker)
-    thread has finished and nothing is pending"""
+    schedule picks this thread; blocked while nothing is pending (or after `max_actions` actions);
+    leaves when every other (non-worker) thread has finished and nothing is left for it to do"""
     ctl = world.ctl
-    gate = Gate(lambda: bool(sched.pending) or world.producers_left == 0)
+    done = [0]
+
+    def may_run():
+        return bool(sched.pending) and (max_actions is None or done[0] < max_actions)
+    gate = Gate(lambda: may_run() or world.producers_left == 0)
     while True:
         wait_gate(ctl, gate)
-        if sched.pending:
+        if may_run():
             item = sched.pending.pop(0)
+            done[0] += 1
             world.emit("pop")
             try:
                 item[1](sched, item[2])
